@@ -176,6 +176,8 @@ func c07CallerSets(typ, field string) (string, bool) {
 }
 
 func runC07(c *an.Ctx) {
+	c.Inf("C07-R6", "shared-configuration sweep", token.NoPos, "%d stores into shared server-group / profile data found on the request path (each is reported)",
+		sharedConfigImmutable(c, "C07-R6", "dnssvc", "filter/", "ecscache.", "dnsmsg."))
 	c04ClonerPools(c, "C07-R1")
 	c.Floor("C07-R8", 4)
 	c06BufferLifetime(c, "C07-R8")
